@@ -156,7 +156,8 @@ def run(ck: Check):
     terms = [case_term(r) for r in results]
     bad = ck.coq_eval("cur", HEADER, terms, "cur_case", "check_cur", shard=200)
     ck.run_fixed({"inherited_context_outlives_block": "C12:inherit", "leaked_inner_context": "C12:restore:leaked-inner",
-                  "parent_left_before_child": "C12:restore:parent-left-first"})
+                  "parent_left_before_child": "C12:restore:parent-left-first",
+                  "leaving_a_context_with_an_explicit_parent": "C12:restore:explicit-parent"})
     sigs, n_fail = {}, 0
     for r in results:
         for sig, what in oracle(r):
